@@ -256,9 +256,14 @@ impl<B: NewBitmap> MmapRegion<B> {
 
         match range.flags {
             Some(flags) => {
-                if flags & libc::MAP_FIXED != 0 {
+                #[cfg(any(target_os = "linux", target_os = "android"))]
+                let fixed_flags = libc::MAP_FIXED | libc::MAP_FIXED_NOREPLACE;
+                #[cfg(not(any(target_os = "linux", target_os = "android")))]
+                let fixed_flags = libc::MAP_FIXED;
+                if flags & fixed_flags != 0 {
                     // Forbid MAP_FIXED, as it doesn't make sense in this context, and is pretty dangerous
-                    // in general.
+                    // in general. MAP_FIXED_NOREPLACE would, with the NULL address hint used here,
+                    // request a mapping at address 0.
                     return Err(Error::MapFixed);
                 }
             }
